@@ -9,6 +9,7 @@ import gen
 from common import Outcome, rng_for, VERIF
 
 LEVEL = "proof"
+SHRINK_KEYS = ("ops",)
 EXPLANATION = ("Theorems (Lean kernel) about the model M of all 13 detectors: warm-up, flag exclusivity, reset=init for every "
                "carrier; this run ties M to /repo by differential execution and evaluates the property's own oracle "
                "(warm-up / exclusivity / status / constant streams) on the real detectors.")
